@@ -61,6 +61,7 @@ type policyExpect struct {
 	FeePerByte int64
 	ExecFactor int64 // pico units
 	MaxVUBInc  uint32
+	MTB        uint32 // MaxTraceableBlocks (0: not set by the history)
 	AttrFee    map[transaction.AttrType]int64
 }
 
